@@ -27,6 +27,7 @@ def parseRec (r : String) : Option TokenRec :=
   | "absent" | "empty" | "na" => some .absent
   | "undecodable" => some .undecodable
   | "kverr" => some .kvError
+  | "kverr-retryable" => some .kvError      -- a retryable lookup failure is still a failed lookup: refused
   | "client" => some (.client false)
   | "oldclient" => some (.client true)
   | _ => none
@@ -60,7 +61,9 @@ def expected (m : String) (c : Caller) (rec : TokenRec) (dgramOk : Bool) : Optio
 def specCheck (m caller rec code changed : String) : Option String :=
   let gated := m ∈ allMethods ∧ m ≠ "Ping" ∧ m ≠ "RegisterIdentity"
   let unauth := caller = "nodeleg" ∨ caller = "nocert" ∨ caller = "badsubject" ∨ caller = "badversion" ∨ caller = "panicid"
-      ∨ (caller = "tok" ∧ (rec = "absent" ∨ rec = "empty"))
+      ∨ (caller = "tok" ∧ (rec = "absent" ∨ rec = "empty"
+          -- the token was never registered and, on top, the lookup itself fails (hard or retryable error)
+          ∨ rec = "kverr" ∨ rec = "kverr-retryable"))
   if gated ∧ unauth then
     if code = "ok" then some "an unauthenticated / unregistered caller was served"
     else if changed ≠ "0" then some "a refused call changed the DHT"
